@@ -310,6 +310,7 @@ def run_c13(rep):
     import fam_include
     n, mf = sizes(rep, (240, 6), (4000, 10))
     fam_include.include_family(rep, n, mf)
+    fam_include.history_probes(rep, "C13")
 
 
 def run_c14(rep):
@@ -353,6 +354,10 @@ def run_c16(rep):
     fam_share.cross_process(rep, rep.seed, *sizes(rep, (80, 14, (0, 1, 2)), (400, 30, (0, 1, 2, 3, 4, 5, 6, 7))))
     fam_share.compile_determinism(rep, rep.seed, sizes(rep, 60, 800))
     fam_share.engine_isolation(rep)
+    fam_share.inputs_isolation(rep, sizes(rep, 40, 600))
+    # compilation is a function of the files as they are NOW: an included file edited between two compilations
+    import fam_include
+    fam_include.edit_recompile_probe(rep, "C16")
     # the model side of the tie: an ordinary play family (the model is a function of story + calls)
     n2, ops2 = sizes(rep, (200, 14), (3000, 40))
     families.play_family(rep, n2, ops2, features=dict(hooks=0.4, join=0.4, render=0.5),
